@@ -112,7 +112,7 @@ def verdict(contract, module, env, outcome):
                       contract.ensures + contract.ensures_all + contract.concrete_ensures):
                 if not eval(e, ev):
                     violated.append('ensures: ' + e)
-            for cls in contract.raises_iff:
+            for cls in ([] if only else contract.raises_iff):
                 cond = contract.raises.get(cls)
                 if cond and eval(cond, ev):
                     violated.append('returned normally although %s is required (%s)' % (cls, cond))
